@@ -85,15 +85,17 @@ Proof. vm_compute. reflexivity. Qed.
 Print Assumptions C19_empty_dir_picks_fallback.
 
 (* ---- structural facts extracted from the source by T1: order of the steps in the code ---- *)
-From BV Require Import Gen.Tables Proofs.StructureFacts.
+From BV Require Import Gen.Tables.
 Local Open Scope N_scope.
-Theorem C19_repo_order_cli_init :
-  ORDER_CLI_INIT = [
-  [99;111;110;102;105;103;46;105;110;105;116] (* config.init *);
-  [115;121;115;46;101;120;105;116] (* sys.exit *);
-  [99;111;110;102;105;103;46;100;101;102;97;117;108;116;95;99;111;110;102;105;103] (* config.default_config *);
-  [115;121;115;46;101;120;105;116] (* sys.exit *);
-  [99;111;110;102;105;103;46;119;114;105;116;101;95;99;111;110;116;101;110;116] (* config.write_content *)
-  ].
-Proof. exact repo_order_cli_init. Qed.
-Print Assumptions C19_repo_order_cli_init.
+
+(* ---- call orders extracted from the source by T1: the steps this property rests on ---- *)
+From Coq Require Import Strings.String.
+From BV Require Import Lib.StrLit Gen.Tables Proofs.OrderC19.
+Local Open Scope string_scope.
+
+(* cli.init: refuse when configured, compute the default, write *)
+Theorem C19_repo_order_init :
+  restrict (lits ["config.init"; "sys.exit"; "config.default_config"; "config.write_content"]) ORDER_CLI_INIT
+  = lits ["config.init"; "sys.exit"; "config.default_config"; "sys.exit"; "config.write_content"].
+Proof. exact c19_order_init. Qed.
+Print Assumptions C19_repo_order_init.
